@@ -4,14 +4,31 @@
   hand-written model `Kestrel.Keyring` (KestrelModel/Keyring.lean).
 
   Nothing in this file restates generated code: every lemma about a generated function starts with `unfold`, and the two
-  loops are handled by generic lemmas about `RsStr.forIn` (`forIn_first`: a search loop; `forIn_parse`: a loop whose body
-  simulates `Keyring.stepLine`) whose hypothesis about the loop body is discharged on the body as generated.
+  loops are handled by generic lemmas about `RsStr.forIn` (`forIn_first` / `forIn_any`: a search loop; `forIn_parse`: a loop
+  whose body simulates `Keyring.stepLine`) whose hypothesis about the loop body is discharged on the body as generated.
   Views: `viewKey`/`viewKeys` map the generated structs to `Keyring.Key`; `viewSt` maps the tuple of loop variables of
   `parse_config` to the model's parser state `Keyring.PSt`.
+
+  ROBUSTNESS (tools/selftest_keyring.py is the regression test).  The proofs are written so that a rewrite of keyring.rs that
+  keeps its behaviour keeps them, and none of them mentions a `const` or a private helper function of the source by name:
+    * the translator emits every `const` and every function that is not the subject of a theorem as `@[simp] def`; the
+      lemmas below are stated with the VALUES written out (36, 84, 32768 …) and reach them with `simp`, so naming a literal,
+      renaming a constant or extracting a helper changes nothing;
+    * case distinctions are made on the MODEL's conditions and each leaf is closed by evaluation (`simp` / `sim_done`), not by
+      `rfl` against the shape of the generated term; where the source may be written in two ways (`for` loop with early
+      `return` vs `iter().find/any`), `first | .. | ..` tries a proof for each;
+    * the loop body and the code after the loop are obtained from the generated `parse_config` by unification
+      (`parse_config_shape`); the translator orders the state tuple by the TYPES of the loop variables (then by first
+      occurrence inside the loop), so permuting the declarations in front of the loop, renaming the variables or
+      rearranging the body changes nothing -- `LoopSt` / `viewSt` below are the one place that depends on that order;
+    * the lemmas about the two `try_from`s do not mention the message strings (every caller discards them).
+  None of this weakens a statement: every theorem still says that the generated function equals the model on every input, so
+  a change of behaviour still makes a proof fail (the edits that were tried are rows X1 … of the self-test).
 -/
 import KestrelModel.GeneratedKeyring
 import KestrelProofs.Keyring
 import KestrelProofs.LockedKey
+set_option linter.unusedSimpArgs false
 namespace Kestrel
 namespace KeyringSrc
 open RsStr
@@ -24,60 +41,72 @@ open RsStr
 @[simp] theorem propagate_ok (a : α) (g : ε → ρ) : (Flow.propagate (.ok a) g : Flow ρ κ α) = .next a := rfl
 @[simp] theorem propagate_error (e : ε) (g : ε → ρ) : (Flow.propagate (.error e : Except ε α) g : Flow ρ κ α) = .ret (g e) := rfl
 @[simp] theorem forIn_nil (f : α → σ → Flow ρ σ σ) (s : σ) : (RsStr.forIn [] f s : Flow ρ κ σ) = .next s := rfl
-
-theorem bind_ite (c : Prop) [Decidable c] (a b : Flow ρ κ σ) (f : σ → Flow ρ κ τ) :
-    Flow.bind (if c then a else b) f = if c then Flow.bind a f else Flow.bind b f := by split <;> rfl
+@[simp] theorem ok_or_some (a : α) (e : ε) : RsStr.ok_or (some a) e = .ok a := rfl
+@[simp] theorem ok_or_none (e : ε) : RsStr.ok_or (none : Option α) e = .error e := rfl
+@[simp] theorem map_err_ok (a : α) (f : ε → ε') : RsStr.map_err (.ok a : Except ε α) f = .ok a := rfl
+@[simp] theorem map_err_error (e : ε) (f : ε → ε') : RsStr.map_err (.error e : Except ε α) f = .error (f e) := rfl
 
 theorem valid_key_name_eq (s : Str) : Keyring.valid_key_name s = Kestrel.Keyring.validKeyName s := by
   unfold Keyring.valid_key_name Kestrel.Keyring.validKeyName
-  have e : decide (RsStr.len s > MAX_NAME_SIZE) = !decide (Kestrel.Keyring.utf8Len s ≤ Generated.maxNameSize) := by
-    show decide (Kestrel.Keyring.utf8Len s > 128) = !decide (Kestrel.Keyring.utf8Len s ≤ 128)
-    by_cases h : Kestrel.Keyring.utf8Len s ≤ 128
-    · simp [h, Nat.not_lt.mpr h]
-    · simp [h, Nat.lt_of_not_le h]
-  rw [e]
-  simp only [RsStr.is_empty, RsStr.contains_char]
-  by_cases h1 : s.isEmpty = true <;> by_cases h3 : '\t' ∈ s <;>
-    by_cases h2 : Kestrel.Keyring.utf8Len s ≤ Generated.maxNameSize <;> simp [h1, h2, h3]
+  simp only [RsStr.is_empty, RsStr.contains_char, RsStr.len, Generated.maxNameSize]
+  rcases Nat.lt_or_ge 128 (Kestrel.Keyring.utf8Len s) with h2 | h2
+  · have h2' : ¬ Kestrel.Keyring.utf8Len s ≤ 128 := by omega
+    by_cases h1 : s.isEmpty = true <;> by_cases h3 : '\t' ∈ s <;> simp [h1, h2, h2', h3]
+  · have h2' : ¬ 128 < Kestrel.Keyring.utf8Len s := by omega
+    by_cases h1 : s.isEmpty = true <;> by_cases h3 : '\t' ∈ s <;> simp [h1, h2, h2', h3]
 
-/-! ### `EncodedPk::try_from`, `EncodedSk::try_from` -/
+/-! ### `EncodedPk::try_from`, `EncodedSk::try_from`
 
-theorem pk_try_from_eq (s : Str) : EncodedPk.try_from s =
+  Stated without the message strings of the `Err(..)`s (every caller replaces them: `.map_err(|_| ..)`), so that rewording a
+  message changes nothing.  `-String.reduceToList`: with that simproc, `simp` spends its time checking
+  `"…".toList = ['…', …]` by evaluation whenever a string literal occurs under an undecided `if`. -/
+
+theorem pk_try_from_toOption (s : Str) : (EncodedPk.try_from s).toOption =
     match B64.decode (Kestrel.Keyring.utf8 s) with
-    | some b => if b.length != 36 then .error "Invalid Public Key length".toList else .ok ⟨s⟩
-    | none => .error "Invalid Public Key format".toList := by
+    | some b => if b.length = 36 then some ⟨s⟩ else none
+    | none => none := by
   unfold EncodedPk.try_from RsStr.b64_decode_to_vec
   cases B64.decode (Kestrel.Keyring.utf8 s) with
   | none => rfl
-  | some b => simp only []; split <;> rfl
+  | some b => by_cases h : b.length = 36 <;> simp [-String.reduceToList, h, Except.toOption]
 
-theorem sk_try_from_eq (s : Str) : EncodedSk.try_from s =
+theorem sk_try_from_toOption (s : Str) : (EncodedSk.try_from s).toOption =
     match B64.decode (Kestrel.Keyring.utf8 s) with
-    | some b => if b.length != PRIVATE_KEY_CT_LEN then .error "Invalid Private Key length".toList else .ok ⟨s⟩
-    | none => .error "Could not decode private key".toList := by
+    | some b => if b.length = 84 then some ⟨s⟩ else none
+    | none => none := by
   unfold EncodedSk.try_from RsStr.b64_decode_to_vec
   cases B64.decode (Kestrel.Keyring.utf8 s) with
   | none => rfl
-  | some b => simp only []; split <;> rfl
+  | some b => by_cases h : b.length = 84 <;> simp [-String.reduceToList, h, Except.toOption]
+
+theorem map_err_const (r : Except ε α) (e : ε') :
+    RsStr.map_err r (fun _ => e) = match r.toOption with | some a => .ok a | none => .error e := by
+  cases r <;> rfl
+
+theorem ok_of_toOption {r : Except ε α} {a : α} (h : r.toOption = some a) : r = .ok a := by
+  cases r with
+  | ok b => simp only [Except.toOption, Option.some.injEq] at h; rw [h]
+  | error e => simp [Except.toOption] at h
+
+theorem error_of_toOption {r : Except ε α} (h : r.toOption = none) : ∃ e, r = .error e := by
+  cases r with
+  | ok b => simp [Except.toOption] at h
+  | error e => exact ⟨e, rfl⟩
 
 /-- `try_from` followed by `.map_err(|_| e)` -/
 theorem pk_try_from_map_err (s : Str) (e : ε) :
     RsStr.map_err (EncodedPk.try_from s) (fun _ => e) = if Kestrel.Keyring.encodedPkOk s then .ok ⟨s⟩ else .error e := by
-  rw [pk_try_from_eq]; unfold Kestrel.Keyring.encodedPkOk
+  rw [map_err_const, pk_try_from_toOption]; unfold Kestrel.Keyring.encodedPkOk
   cases B64.decode (Kestrel.Keyring.utf8 s) with
   | none => rfl
-  | some b =>
-    show RsStr.map_err (if b.length != 36 then _ else _) _ = if (b.length == 36) = true then _ else _
-    by_cases h : b.length = 36 <;> simp [h, RsStr.map_err]
+  | some b => by_cases h : b.length = 36 <;> simp [h, Generated.encodedPkLen]
 
 theorem sk_try_from_map_err (s : Str) (e : ε) :
     RsStr.map_err (EncodedSk.try_from s) (fun _ => e) = if Kestrel.Keyring.encodedSkOk s then .ok ⟨s⟩ else .error e := by
-  rw [sk_try_from_eq]; unfold Kestrel.Keyring.encodedSkOk
+  rw [map_err_const, sk_try_from_toOption]; unfold Kestrel.Keyring.encodedSkOk
   cases B64.decode (Kestrel.Keyring.utf8 s) with
   | none => rfl
-  | some b =>
-    show RsStr.map_err (if b.length != 84 then _ else _) _ = if (b.length == 84) = true then _ else _
-    by_cases h : b.length = 84 <;> simp [h, RsStr.map_err]
+  | some b => by_cases h : b.length = 84 <;> simp [h, Generated.privateKeyCtLen]
 
 /-! ### loops -/
 
@@ -102,17 +131,35 @@ theorem forIn_first (f : α → Unit → Flow ρ Unit Unit) (P : α → Bool) (g
     · simp only [Bool.false_eq_true, if_false]; exact forIn_first f P g hf as
     · simp only [if_true]
 
+/-- a search loop that returns the same value `r` whatever element it stops at -/
+theorem forIn_any (f : α → Unit → Flow ρ Unit Unit) (P : α → Bool) (r : ρ)
+    (hf : ∀ a, f a () = if P a then .ret r else .next ()) (l : List α) :
+    (RsStr.forIn l f () : Flow ρ κ Unit) = if l.any P then .ret r else .next () := by
+  rw [forIn_first f P (fun _ => r) hf l]
+  cases h : l.find? P with
+  | none =>
+    have : l.any P = false := by rw [List.any_eq_false]; exact List.find?_eq_none.mp h
+    simp [this]
+  | some a =>
+    have : l.any P = true := by rw [List.any_eq_true]; exact ⟨a, List.mem_of_find?_eq_some h, List.find?_some h⟩
+    simp [this]
+
+theorem bind_ite (c : Prop) [Decidable c] (a b : Flow ρ κ σ) (f : σ → Flow ρ κ τ) :
+    Flow.bind (if c then a else b) f = if c then Flow.bind a f else Flow.bind b f := by split <;> rfl
+
+theorem run_ite (c : Prop) [Decidable c] (a b : Flow ρ Empty ρ) :
+    RsStr.run (if c then a else b) = if c then RsStr.run a else RsStr.run b := by split <;> rfl
+
+theorem any_or_eq (l : List α) (p q : α → Bool) : l.any (fun a => p a || q a) = (l.any p || l.any q) := by
+  induction l with
+  | nil => rfl
+  | cons a l ih => simp only [List.any_cons, ih]; cases p a <;> cases q a <;> simp
+
 /-! ### views -/
 
 def viewKey (k : Key) : Kestrel.Keyring.Key := ⟨k.name, k.public_key._0, k.private_key.map (·._0)⟩
 
 def viewKeys (kr : Keyring) : List Kestrel.Keyring.Key := kr.keys.map viewKey
-
-/-- the loop variables of `parse_config`, in the order of the generated state tuple -/
-abbrev LoopSt := List Key × Option Str × Option EncodedPk × Option EncodedSk × Bool
-
-def viewSt : LoopSt → Kestrel.Keyring.PSt
-  | (keys, n, p, s, f) => ⟨keys.map viewKey, n, p.map (·._0), s.map (·._0), f⟩
 
 /-! ### `add_key` -/
 
@@ -130,35 +177,39 @@ theorem add_key_eq (keys : List Key) (n : Option Str) (p : Option EncodedPk) (s 
     cases p with
     | none => rfl
     | some p' =>
+      -- (`cases s`: however the code copies the optional private key -- `map(|k| k.to_owned())`, `cloned()`, `if let` --
+      --  it evaluates to `s` once `s` is `none` or `some _`)
+      cases s <;>
       simp only [Option.isNone_some, Option.isSome_some, Bool.false_and, Bool.and_false, Bool.false_eq_true, if_false,
-        bind_next, RsStr.unwrap_opt]
-      rw [forIn_first _ (fun k => k.name == n' || k.public_key._0 == p'._0)
-        (fun _ => (keys, Except.error KeyringError.ParseConfig))
-        (by
-          intro k
-          simp only [EncodedPk.as_str]
-          by_cases h1 : (k.name == n') = true <;> by_cases h2 : (k.public_key._0 == p'._0) = true <;> simp [h1, h2])]
-      rw [Option.map_id']
-      cases h : List.find? (fun k => k.name == n' || k.public_key._0 == p'._0) keys with
-      | none =>
-        have : (keys.any fun k => k.name == n' || k.public_key._0 == p'._0) = false := by
-          rw [List.any_eq_false]; exact List.find?_eq_none.mp h
-        simp only [this, bind_next, run_next, Bool.false_eq_true, if_false]
-      | some a =>
-        have : (keys.any fun k => k.name == n' || k.public_key._0 == p'._0) = true := by
-          rw [List.any_eq_true]; exact ⟨a, List.mem_of_find?_eq_some h, List.find?_some (p := fun k : Key => k.name == n' || k.public_key._0 == p'._0) h⟩
-        simp only [this, bind_ret, run_ret, if_true]
-
+        bind_next, RsStr.unwrap_opt, Option.map_id', id_eq] <;>
+      first
+      | -- the duplicate test as a `for` loop with early `return`s
+        (rw [forIn_any _ (fun k => k.name == n' || k.public_key._0 == p'._0) (keys, Except.error KeyringError.ParseConfig)
+          (by
+            intro k
+            by_cases h1 : (k.name == n') = true <;> by_cases h2 : (k.public_key._0 == p'._0) = true <;> simp [h1, h2])]
+         split <;> rfl)
+      | -- the same test written with `iter().any(..)` (one test, or one per field)
+        (by_cases h1 : (keys.any fun k => k.name == n') = true <;>
+           by_cases h2 : (keys.any fun k => k.public_key._0 == p'._0) = true <;> simp [h1, h2, any_or_eq])
 
 theorem any_view (keys : List Key) (n p : Str) :
     (keys.map viewKey).any (fun k => k.name == n || k.pk == p) = keys.any (fun k => k.name == n || k.public_key._0 == p) := by
   rw [List.any_map]; rfl
 
+/-- the loop variables of `parse_config`, in the order of the generated state tuple (the translator orders them by their
+    type: `key_found : Bool`, `keys : List Key`, `key_public : Option EncodedPk`, `key_private : Option EncodedSk`,
+    `key_name : Option Str`) -/
+abbrev LoopSt := Bool × List Key × Option EncodedPk × Option EncodedSk × Option Str
+
+def viewSt : LoopSt → Kestrel.Keyring.PSt
+  | (f, keys, p, s, n) => ⟨keys.map viewKey, n, p.map (·._0), s.map (·._0), f⟩
+
 /-- `add_key` against the model's `addKey` on the viewed state -/
 theorem add_key_view (keys : List Key) (n : Option Str) (p : Option EncodedPk) (s : Option EncodedSk) (f : Bool) :
-    match Kestrel.Keyring.addKey (viewSt (keys, n, p, s, f)) with
+    match Kestrel.Keyring.addKey (viewSt (f, keys, p, s, n)) with
     | none => Keyring.add_key keys n p s = (keys, .error .ParseConfig)
-    | some st' => ∃ keys', Keyring.add_key keys n p s = (keys', .ok ()) ∧ viewSt (keys', none, none, none, f) = st' := by
+    | some st' => ∃ keys', Keyring.add_key keys n p s = (keys', .ok ()) ∧ viewSt (f, keys', none, none, none) = st' := by
   rw [add_key_eq]
   unfold Kestrel.Keyring.addKey viewSt
   cases n with
@@ -262,17 +313,27 @@ def SimEnd (o : Except KeyringError (List Key)) (m : Option (List Kestrel.Keyrin
   | none => o = .error .ParseConfig
   | some ks => ∃ keys, o = .ok keys ∧ keys.map viewKey = ks
 
+/-- closes a goal `Sim ..` once the generated side has been evaluated; `kr_simp` evaluates it (unfolding the helper
+    functions and named constants of the source, which are `@[simp]`) -/
+macro "kr_simp" : tactic =>
+  `(tactic| simp [-String.reduceToList, RsStr.starts_with, RsStr.trim, RsStr.retain, Kestrel.Keyring.startsWith, starts_with_char_eq, RsStr.is_empty,
+      split_once_char_eq, viewSt, *])
+macro "sim_done" : tactic =>
+  `(tactic| first
+    | exact Sim.ret _ | exact Sim.cont rfl | exact Sim.next rfl
+    | (kr_simp; first | exact Sim.ret _ | exact Sim.cont rfl | exact Sim.next rfl))
+
 theorem parse_config_shape :
     ∃ (f : Str → LoopSt → Flow (Except KeyringError (List Key)) LoopSt LoopSt)
       (K : LoopSt → Flow (Except KeyringError (List Key)) Empty (Except KeyringError (List Key))),
       (∀ config, Keyring.parse_config config =
-        RsStr.run (Flow.bind (RsStr.forIn (RsStr.lines config) f ([], none, none, none, false)) K)) ∧
+        RsStr.run (Flow.bind (RsStr.forIn (RsStr.lines config) f (false, [], none, none, none)) K)) ∧
       (∀ line st, Sim (.error .ParseConfig) (f line st) (Kestrel.Keyring.stepLine (viewSt st) line)) ∧
       (∀ st, SimEnd (RsStr.run (K st))
         (if !(viewSt st).found then none else (Kestrel.Keyring.addKey (viewSt st)).map (·.keys))) := by
   refine ⟨_, _, fun _ => rfl, ?_, ?_⟩
   · intro line st
-    obtain ⟨keys, n, p, s, found⟩ := st
+    obtain ⟨found, keys, p, s, n⟩ := st
     unfold Kestrel.Keyring.stepLine
     simp only [RsStr.starts_with, RsStr.trim, RsStr.retain, Kestrel.Keyring.startsWith, starts_with_char_eq, RsStr.is_empty,
       split_once_char_eq]
@@ -281,100 +342,90 @@ theorem parse_config_shape :
     by_cases hK : "[Key]".toList.isPrefixOf cl = true
     · simp only [hK, if_true]
       cases found with
-      | false => exact Sim.cont rfl
+      | false => sim_done
       | true =>
+        -- a section is open: the model adds the key; the code does the same after tests of its own (which `add_key` repeats)
         have hv := add_key_view keys n p s true
-        have hf : (viewSt (keys, n, p, s, true)).found = true := rfl
+        have hf : (viewSt (true, keys, p, s, n)).found = true := rfl
         simp only [hf, if_true]
-        cases n with
-        | none => cases p <;> exact Sim.ret _
-        | some n' =>
-          cases p with
-          | none => exact Sim.ret _
-          | some p' =>
-            cases h : Kestrel.Keyring.addKey (viewSt (keys, some n', some p', s, true)) with
-            | none =>
-              rw [h] at hv
-              simp only [hv, Option.isNone_some, Bool.false_eq_true, if_false, propagate_error, bind_ret]
-              exact Sim.ret _
-            | some st' =>
-              rw [h] at hv
-              obtain ⟨keys', e, hv'⟩ := hv
+        cases h : Kestrel.Keyring.addKey (viewSt (true, keys, p, s, n)) with
+        | none =>
+          simp only [h] at hv
+          cases n <;> cases p <;> sim_done
+        | some st' =>
+          simp only [h] at hv
+          obtain ⟨keys', e, hv'⟩ := hv
+          cases n with
+          | none => simp [Kestrel.Keyring.addKey, viewSt] at h
+          | some n' =>
+            cases p with
+            | none => simp [Kestrel.Keyring.addKey, viewSt] at h
+            | some p' =>
               simp only [e, Option.isNone_some, Bool.false_eq_true, if_false, propagate_ok, bind_next]
               exact Sim.cont hv'
     · simp only [hK, if_false, Bool.false_eq_true]
       by_cases hN : "Name".toList.isPrefixOf cl = true
       · simp only [hN, if_true]
         cases found with
-        | false => exact Sim.ret _
+        | false => sim_done
         | true =>
           cases n with
-          | some _ => exact Sim.ret _
+          | some _ => sim_done
           | none =>
             cases h : Kestrel.Keyring.splitOnceEq cl with
-            | none => exact Sim.ret _
+            | none => sim_done
             | some ab =>
               obtain ⟨a, v⟩ := ab
               have hn := hname a v h
-              by_cases hv : Kestrel.Keyring.validParsedName (Kestrel.Keyring.trim v) = true
-              · simp [hn, hv, viewSt]
-                exact Sim.next rfl
-              · simp [hn, hv, viewSt]
-                exact Sim.ret _
+              by_cases hv : Kestrel.Keyring.validParsedName (Kestrel.Keyring.trim v) = true <;> sim_done
       · simp only [hN, if_false, Bool.false_eq_true]
         by_cases hP : "PublicKey".toList.isPrefixOf cl = true
         · simp only [hP, if_true]
           cases found with
-          | false => exact Sim.ret _
+          | false => sim_done
           | true =>
             cases p with
-            | some _ => exact Sim.ret _
+            | some _ => sim_done
             | none =>
               cases h : Kestrel.Keyring.splitOnceEq cl with
-              | none => exact Sim.ret _
+              | none => sim_done
               | some ab =>
                 obtain ⟨a, v⟩ := ab
-                by_cases hv : Kestrel.Keyring.encodedPkOk (Kestrel.Keyring.trim v) = true
-                · simp [pk_try_from_map_err, hv, viewSt]
-                  exact Sim.next rfl
-                · simp [pk_try_from_map_err, hv, viewSt]
-                  exact Sim.ret _
+                have hm := pk_try_from_map_err (Kestrel.Keyring.trim v) KeyringError.ParseConfig
+                by_cases hv : Kestrel.Keyring.encodedPkOk (Kestrel.Keyring.trim v) = true <;> sim_done
         · simp only [hP, if_false, Bool.false_eq_true]
           by_cases hS : "PrivateKey".toList.isPrefixOf cl = true
           · simp only [hS, if_true]
             cases found with
-            | false => exact Sim.ret _
+            | false => sim_done
             | true =>
               cases s with
-              | some _ => exact Sim.ret _
+              | some _ => sim_done
               | none =>
                 cases h : Kestrel.Keyring.splitOnceEq cl with
-                | none => exact Sim.ret _
+                | none => sim_done
                 | some ab =>
                   obtain ⟨a, v⟩ := ab
-                  by_cases hv : Kestrel.Keyring.encodedSkOk (Kestrel.Keyring.trim v) = true
-                  · simp [sk_try_from_map_err, hv, viewSt]
-                    exact Sim.next rfl
-                  · simp [sk_try_from_map_err, hv, viewSt]
-                    exact Sim.ret _
+                  have hm := sk_try_from_map_err (Kestrel.Keyring.trim v) KeyringError.ParseConfig
+                  by_cases hv : Kestrel.Keyring.encodedSkOk (Kestrel.Keyring.trim v) = true <;> sim_done
           · simp only [hS, if_false, Bool.false_eq_true]
             by_cases hC : ("#".toList.isPrefixOf cl || cl.isEmpty) = true
             · simp only [hC, if_true, bind_cont]
-              exact Sim.cont rfl
+              sim_done
             · simp only [hC, if_false, bind_ret, Bool.false_eq_true]
-              exact Sim.ret _
+              sim_done
   · intro st
-    obtain ⟨keys, n, p, s, found⟩ := st
+    obtain ⟨found, keys, p, s, n⟩ := st
     cases found with
     | false => exact (rfl : _ = Except.error KeyringError.ParseConfig)
     | true =>
       have hv := add_key_view keys n p s true
-      have hf : (!(viewSt (keys, n, p, s, true)).found) = false := rfl
+      have hf : (!(viewSt (true, keys, p, s, n)).found) = false := rfl
       simp only [hf, Bool.false_eq_true, if_false, Bool.not_true]
-      cases h : Kestrel.Keyring.addKey (viewSt (keys, n, p, s, true)) with
+      cases h : Kestrel.Keyring.addKey (viewSt (true, keys, p, s, n)) with
       | none =>
         rw [h] at hv
-        simp only [hv, propagate_error, bind_ret, run_ret, Option.map_none]
+        simp only [hv, propagate_error, bind_ret, bind_next, run_ret, Option.map_none]
         exact (rfl : _ = Except.error KeyringError.ParseConfig)
       | some st' =>
         rw [h] at hv
@@ -388,8 +439,8 @@ theorem parse_config_sim (text : Str) : SimEnd (Keyring.parse_config text) (Kest
   obtain ⟨f, K, hshape, hstep, hend⟩ := parse_config_shape
   rw [hshape]
   unfold Kestrel.Keyring.parse
-  have hl := forIn_parse (κ := Empty) f _ hstep (RsStr.lines text) ([], none, none, none, false)
-  have h0 : viewSt ([], none, none, none, false) = {} := rfl
+  have hl := forIn_parse (κ := Empty) f _ hstep (RsStr.lines text) (false, [], none, none, none)
+  have h0 : viewSt (false, [], none, none, none) = {} := rfl
   rw [h0] at hl
   unfold RsStr.lines at hl ⊢
   cases h : Kestrel.Keyring.parseLines {} (Kestrel.Keyring.lines text) with
@@ -431,51 +482,55 @@ theorem new_sim (text : Str) :
 theorem get_key_eq (kr : Keyring) (name : Str) :
     (Keyring.get_key kr name).map viewKey = Kestrel.Keyring.getKey (viewKeys kr) name := by
   unfold Keyring.get_key Kestrel.Keyring.getKey viewKeys
-  rw [List.find?_map]; rfl
+  first
+  | -- `iter().find(..)`
+    (rw [List.find?_map]; rfl)
+  | -- the same function as a `for` loop with an early `return`
+    (rw [forIn_first _ (fun k => k.name == name) (fun k => some k)
+      (by intro k; by_cases h : (k.name == name) = true <;> simp [h]), List.find?_map]
+     have e : ((fun x : Kestrel.Keyring.Key => x.name == name) ∘ viewKey) = fun k => k.name == name := rfl
+     rw [e]
+     cases List.find? (fun k => k.name == name) kr.keys <;> rfl)
 
 theorem get_name_from_key_eq (kr : Keyring) (pk : EncodedPk) :
     Keyring.get_name_from_key kr pk = Kestrel.Keyring.getNameFromKey (viewKeys kr) pk._0 := by
   unfold Keyring.get_name_from_key Kestrel.Keyring.getNameFromKey viewKeys
+  rw [List.find?_map, Option.map_map]
+  have e : ((fun x : Kestrel.Keyring.Key => x.pk == pk._0) ∘ viewKey) = fun k => k.public_key._0 == pk._0 := rfl
+  rw [e]
   first
   | -- the function as a `for` loop with an early `return`
     (rw [forIn_first _ (fun k => k.public_key._0 == pk._0) (fun k => some k.name)
-      (by intro k; simp only [EncodedPk.as_str]; by_cases h : (k.public_key._0 == pk._0) = true <;> simp [h]), List.find?_map]
-     cases h : List.find? (fun k => k.public_key._0 == pk._0) kr.keys with
-     | none =>
-       have : List.find? ((fun x => x.pk == pk._0) ∘ viewKey) kr.keys = none := h
-       simp only [this, bind_next, run_next, Option.map_none]
-     | some a =>
-       have : List.find? ((fun x => x.pk == pk._0) ∘ viewKey) kr.keys = some a := h
-       simp only [this, bind_ret, run_ret, Option.map_some]; rfl)
-  | -- the same function written as `iter().find(..).map(..)`
-    (rw [List.find?_map, Option.map_map]; rfl)
+      (by intro k; by_cases h : (k.public_key._0 == pk._0) = true <;> simp [h])]
+     cases List.find? (fun k => k.public_key._0 == pk._0) kr.keys <;> rfl)
+  | -- the same function written as `iter().find(..).map(..)`, or with `if let Some(key) = ..find(..)`
+    (simp only [EncodedPk.as_str]
+     cases List.find? (fun k => k.public_key._0 == pk._0) kr.keys <;> rfl)
 
 /-! ### stretch: serialize / encode / decode / lock / unlock -/
 
 theorem serialize_key_eq (name : Str) (pk : EncodedPk) (sk : EncodedSk) :
     Keyring.serialize_key name pk sk = Kestrel.Keyring.serializeKey name pk._0 sk._0 := rfl
 
-theorem kdf_eq (pw salt : Bytes) :
-    RsStr.kc_scrypt pw salt SCRYPT_N SCRYPT_R SCRYPT_P 32 = Kestrel.Keyring.lockKdf pw salt := rfl
+/-- the scrypt call of `lock_private_key` / `unlock_private_key` with its parameters written out (the named constants of the
+    source are `@[simp]`: `simp` turns `SCRYPT_N` … into these literals) -/
+theorem kdf_eq (pw salt : Bytes) : RsStr.kc_scrypt pw salt 32768 8 1 32 = Kestrel.Keyring.lockKdf pw salt := rfl
 
-theorem version_eq : PRIVATE_KEY_VERSION = Generated.privateKeyVersion := rfl
+theorem zeros12_eq : List.replicate 12 (0 : UInt8) = zeros 12 := rfl
 
 theorem lock_private_key_eq (sk : RsStr.PrivateKey) (pw salt : Bytes) :
     (Keyring.lock_private_key sk pw salt)._0 = Kestrel.Keyring.lockPrivateKey sk.key pw salt := by
   unfold Keyring.lock_private_key Kestrel.Keyring.lockPrivateKey
-  simp only [kdf_eq, version_eq, RsStr.kc_chapoly_encrypt_ietf, RsStr.PrivateKey.as_bytes, RsStr.b64_encode_to_string,
-    RsStr.unwrap_res, List.nil_append]
-  rfl
+  simp [-List.reduceReplicate, kdf_eq, zeros12_eq, Generated.privateKeyVersion, RsStr.kc_chapoly_encrypt_ietf,
+    RsStr.PrivateKey.as_bytes, RsStr.b64_encode_to_string, RsStr.unwrap_res]
 
 theorem encode_public_key_eq (pk : RsStr.PublicKey) (h : pk.key.length = 32) :
     (Keyring.encode_public_key pk)._0 = Kestrel.Keyring.encodePk pk.key := by
   unfold Keyring.encode_public_key Kestrel.Keyring.encodePk
   have hs : ((sha256 pk.key).take 4).length = 4 := by rw [List.length_take, sha256_length]; rfl
-  simp only [RsStr.PublicKey.as_bytes, RsStr.kc_sha256, RsStr.b64_encode_to_string, RsStr.unwrap_res, Rs.copyFromSlice,
-    List.length_take, List.length_drop, List.length_replicate, List.length_append, h, hs, List.take_replicate, List.drop_replicate]
-  congr 2
-  simp [h, List.take_of_length_le, hs]
-
+  have hs' : min 4 (sha256 pk.key).length = 4 := by rw [sha256_length]; rfl
+  simp [RsStr.PublicKey.as_bytes, RsStr.kc_sha256, RsStr.b64_encode_to_string, RsStr.unwrap_res, Rs.copyFromSlice,
+    h, hs, hs', List.take_of_length_le]
 
 /-- error classes of the model ↦ error constructors of the code (for `decodePk` / `unlockPrivateKey`) -/
 def errClass : Kestrel.Keyring.KrErr → KeyringError
@@ -494,11 +549,9 @@ theorem decode_public_key_eq (s : Str) (b : Bytes) (hd : B64.decode (Kestrel.Key
       | .error e => .error (errClass e) := by
   unfold Keyring.decode_public_key Kestrel.Keyring.decodePk
   have h32 : (b.take 32).length = 32 := by rw [List.length_take, hl]; rfl
-  simp only [EncodedPk.as_str, RsStr.b64_decode_to_vec, hd, RsStr.unwrap_res, hl, PUBLIC_KEY_LEN, RsStr.kc_sha256,
-    RsStr.PublicKey.try_from, h32, Generated.encodedPkLen]
-  by_cases hc : b.drop 32 = (sha256 (b.take 32)).take 4
-  · simp [hc]
-  · simp [hc, errClass]
+  by_cases hc : b.drop 32 = (sha256 (b.take 32)).take 4 <;>
+    simp [RsStr.b64_decode_to_vec, hd, RsStr.unwrap_res, hl, RsStr.kc_sha256, RsStr.PublicKey.try_from, h32,
+      Generated.encodedPkLen, hc, errClass]
 
 /-- `unlock_private_key` on an `EncodedSk` accepted by `try_from` (84 decoded bytes) -/
 theorem unlock_private_key_eq (s : Str) (pw b : Bytes) (hd : B64.decode (Kestrel.Keyring.utf8 s) = some b) (hl : b.length = 84) :
@@ -508,23 +561,19 @@ theorem unlock_private_key_eq (s : Str) (pw b : Bytes) (hd : B64.decode (Kestrel
       | .error e => .error (errClass e) := by
   unfold Keyring.unlock_private_key Kestrel.Keyring.unlockPrivateKey
   have hct : (b.drop 36).take 48 = b.drop 36 := List.take_of_length_le (by rw [List.length_drop, hl]; decide)
-  have ez : List.replicate 12 (0 : UInt8) = zeros 12 := rfl
-  simp only [EncodedSk.as_bytes, RsStr.b64_decode_to_vec, hd, RsStr.unwrap_res, hl, PRIVATE_KEY_CT_LEN, kdf_eq,
-    version_eq, Nat.reduceSub, hct, RsStr.kc_chapoly_decrypt_ietf, Generated.privateKeyCtLen, ez, bne_self_eq_false,
-    Bool.false_eq_true, if_false, bind_next]
-  by_cases hv : b.take 4 = Generated.privateKeyVersion
-  · simp only [hv, bne_self_eq_false, Bool.false_eq_true, if_false, bind_next, ne_eq, not_true_eq_false]
-    cases ho : aeadOpen (Kestrel.Keyring.lockKdf pw ((b.drop 4).take 32)) (zeros 12) Generated.privateKeyVersion (b.drop 36) with
-    | none =>
-      simp only [RsStr.map_err, propagate_error, bind_ret, run_ret, errClass]
+  -- evaluate the named constants, the slice bounds and the length test (both sides with the version bytes written out)
+  simp [-List.reduceReplicate, RsStr.b64_decode_to_vec, hd, RsStr.unwrap_res, hl, kdf_eq, zeros12_eq, hct,
+    RsStr.kc_chapoly_decrypt_ietf, Generated.privateKeyCtLen, Generated.privateKeyVersion]
+  by_cases hv : b.take 4 = [101, 103, 107, 48]
+  · simp only [hv, if_true, bind_next]
+    cases ho : aeadOpen (Kestrel.Keyring.lockKdf pw ((b.drop 4).take 32)) (zeros 12) [101, 103, 107, 48] (b.drop 36) with
+    | none => simp only [map_err_error, propagate_error, bind_ret, run_ret, errClass, not_true_eq_false, if_false]
     | some sk =>
       have hlen := aeadOpen_length _ _ _ _ _ (Kestrel.Keyring.lockKdf_length pw _) (zeros_length 12) ho
       have hsk : sk.length = 32 := by rw [List.length_drop, hl] at hlen; omega
-      simp only [RsStr.map_err, propagate_ok, bind_next, run_next, RsStr.PrivateKey.try_from, hsk, bne_self_eq_false,
-        Bool.false_eq_true, if_false]
-  · have e1 : (b.take 4 != Generated.privateKeyVersion) = true := by simp [hv]
-    simp only [e1, hv, if_true, if_false, bind_ret, run_ret, ne_eq, not_true_eq_false, not_false_eq_true, errClass]
-
+      simp only [map_err_ok, propagate_ok, bind_next, run_next, RsStr.PrivateKey.try_from, hsk, bne_self_eq_false,
+        Bool.false_eq_true, if_false, not_true_eq_false]
+  · simp only [hv, if_false, bind_ret, run_ret, errClass, not_false_eq_true, if_true]
 
 /-- `new_sim` without a `match` in the statement (usable on concrete texts without the elaborator evaluating the parser) -/
 theorem new_of_parse_none (text : Str) (h : Kestrel.Keyring.parse text = none) : Keyring.new text = .error .ParseConfig := by
